@@ -27,7 +27,7 @@ class Var:
 
 
 class Const:
-    def __init__(self, val, ty): self.val, self.ty = val, ty
+    def __init__(self, val, ty, spelling=None): self.val, self.ty, self.spelling = val, ty, spelling
 
 
 class Wild:
@@ -639,6 +639,8 @@ def fmt_term(t):
     if isinstance(t, Var):
         return t.name
     if isinstance(t, Const):
+        if getattr(t, "spelling", None) is not None:
+            return t.spelling
         s = fmt_const(t.val, t.ty)
         return s
     if isinstance(t, Wild):
@@ -852,3 +854,59 @@ def gen_recursive(ch, max_nodes=9, max_edges=18, npatterns=(1, 3), allow_neg=Tru
     for r in P.rules:
         r.order = list(range(len(r.body)))
     return P
+
+
+# ------------------------------------------------------------------------------------------------
+# helpers for shape injection (deep copies with variable renaming, alternative constant spellings)
+
+def copy_term(t, ren):
+    if isinstance(t, Var):
+        return Var(ren(t.name), t.ty)
+    if isinstance(t, Const):
+        return Const(t.val, t.ty, getattr(t, "spelling", None))
+    if isinstance(t, Wild):
+        return Wild(t.ty)
+    if isinstance(t, Fn):
+        return Fn(t.op, [copy_term(a, ren) for a in t.args], t.ty, t.oty)
+    if isinstance(t, RecInit):
+        return RecInit([copy_term(a, ren) for a in t.args], t.ty)
+    if isinstance(t, Agg):
+        return Agg(t.op, copy_term(t.target, ren) if t.target is not None else None, [copy_lit(l, ren) for l in t.body], t.ty,
+                   [Var(ren(v.name), v.ty) for v in t.locals])
+    raise TypeError(t)
+
+
+def copy_lit(l, ren):
+    if isinstance(l, Atom):
+        return Atom(l.rel, [copy_term(a, ren) for a in l.args])
+    if isinstance(l, Neg):
+        return Neg(copy_lit(l.atom, ren))
+    if isinstance(l, Cmp):
+        return Cmp(l.op, copy_term(l.lhs, ren), copy_term(l.rhs, ren), l.ty)
+    raise TypeError(l)
+
+
+def copy_rule(r, ren=lambda n: n, head_rel=None):
+    h = copy_lit(r.head, ren)
+    if head_rel:
+        h.rel = head_rel
+    nr = Rule(h, [copy_lit(l, ren) for l in r.body], list(r.order))
+    nr.tags = set(r.tags)
+    return nr
+
+
+def alt_spelling(ch, v, ty):
+    """another way of writing the numeric constant v in program text (None if there is none)"""
+    if ty in (NUMBER, UNSIGNED) and isinstance(v, int) and v >= 0:
+        k = ch.int(0, 2)
+        if k == 0:
+            return "0x%x" % v
+        if k == 1:
+            return "0b" + bin(v)[2:]
+        return "0x%X" % v if v > 9 else "0x%x" % v
+    if ty == FLOAT:
+        base = repr(float(v))
+        if "e" in base or "inf" in base or "nan" in base:
+            return None
+        return base + "0" * ch.int(1, 3)
+    return None
